@@ -194,6 +194,32 @@ def run(tier: str) -> Run:
     # ---- R4: the array writer behind the pixel and histogram blocks -------------------------------------------------
     # declared block sizes are computed from shapes; the bytes come from LowLevelSqw.write_array.  It must write every
     # element exactly once, in order, whatever the size of the array (0 elements .. more than 1 MiB) and the target.
+    # ---- R5: a file does not depend on the files written before it ---------------------------------------------------------
+    r5 = run.rule('R5', 'a file does not depend on the files written before it: two-file histories in one world (module-level tables and '
+                        'caches persist), same byte order and block set, other pixel counts / run counts / title lengths: header, block table '
+                        '(positions and sizes) and length of the second file are those a fresh interpreter writes', 4)
+    hist = [((FULL, 'little', 5, 2, 1, 'memory', 'a title'), (FULL, 'little', 12, 5, 2, 'memory', 'a much longer title than the first one')),
+            ((FULL, 'little', 12, 5, 2, 'memory', 'a much longer title than the first one'), (FULL, 'little', 5, 2, 1, 'memory', 'a title')),
+            ((('P', 'D'), 'big', 3, 2, 1, 'memory', 't'), (('P', 'D'), 'big', 10, 1, 3, 'memory', 'tt')),
+            ((FULL, 'big', 4, 3, 1, 'file', 'a title'), (FULL, 'big', 9, 3, 1, 'file', 'another'))]
+
+    def shape_of(wr_):
+        if wr_.outcome[0] != 'return' or wr_.file is None:
+            return ('outcome', str(wr_.outcome)[:120])
+        u_ = wr_.file.units
+        try:
+            c_ = sqwfmt.Cursor(u_, sqwfmt.detect_order(u_))
+            return ('file', sqwfmt.file_header(c_), [(b['name'], b['block_type'], b['position'], b['size']) for b in sqwfmt.block_table(c_)['blocks']], len(u_))
+        except sqwfmt.FormatError as ex:
+            return ('does not decode', str(ex)[:120])
+    for first, second in hist:
+        fresh_ = shape_of(build(repo, *second))
+        w1 = build(repo, *first)
+        w1.world.it.end_of_call()
+        got_ = shape_of(build(repo, *second, world=w1.world))
+        r5.check(got_ == fresh_, f'{second[1]}-endian file of {second[2]} pixels / {second[4]} run(s) after one of {first[2]} / {first[4]}', loc(cfi),
+                 {'fresh': str(fresh_)[:300], 'after_the_first_file': str(got_)[:300]}, key=f'history:{"".join(second[0])}:{second[1]}:{second[5]}')
+
     r4 = run.rule('R4', 'write_array writes exactly the elements of the array, in order: empty, small and larger than 1 MiB, in memory and to a file, '
                         'both byte orders', 8)
     from sa.absio import AbsFile, Elem, NdArr
